@@ -5,6 +5,7 @@ package fx
 
 import (
 	"errors"
+	"fmt"
 	"sort"
 	"time"
 )
@@ -356,4 +357,72 @@ func helperNewReceiver(receiver, owner string) string {
 
 func GoodValueViaHelper(receiver, owner string, amt int) error {
 	return pay(helperNewReceiver(receiver, owner), amt)
+}
+
+// ---- G: NotUnder (the transition does not hide behind the mode flag)
+func GoodNotUnder(xs []int, dry bool) int {
+	t := 0
+	for _, x := range xs {
+		if !dry {
+			book(x)
+		}
+		use(x)
+		t += x
+	}
+	return t
+}
+
+func BadNotUnder(xs []int, dry bool) int {
+	t := 0
+	for _, x := range xs {
+		if !dry {
+			book(x)
+			use(x)
+		}
+		t += x
+	}
+	return t
+}
+
+// ---- A: MapAccumulate (a second contribution for a key is added, never dropped or overwriting)
+func GoodAccumulate(ks []string, vs []int) map[string]int {
+	m := map[string]int{}
+	for i, k := range ks {
+		n := vs[i]
+		if cur, ok := m[k]; ok {
+			n = n + cur
+		}
+		m[k] = n
+	}
+	return m
+}
+
+func BadAccumulateDrop(ks []string, vs []int) map[string]int {
+	m := map[string]int{}
+	for i, k := range ks {
+		if cur, ok := m[k]; ok {
+			cur = cur + vs[i]
+			_ = cur
+		} else {
+			m[k] = vs[i]
+		}
+	}
+	return m
+}
+
+func BadAccumulateOverwrite(ks []string, vs []int) map[string]int {
+	m := map[string]int{}
+	for i, k := range ks {
+		m[k] = vs[i]
+	}
+	return m
+}
+
+// ---- Y: KeyLayout
+func GoodKey(pool uint64, denom string) []byte {
+	return []byte(fmt.Sprintf("idx/%d/%s/", pool, denom))
+}
+
+func BadKeyOpenPrefix(pool uint64, denom string) []byte {
+	return []byte(fmt.Sprintf("idx/%d/%s", pool, denom))
 }
